@@ -217,6 +217,8 @@ def awkward_values():
     vals = set()
     for b in base:
         vals |= {b, float(np.float32(b)), float(np.nextafter(b, 1.0)), float(np.nextafter(b, 0.0))}
+    import numpy as _np
+    vals |= {1.0, float(_np.nextafter(_np.float32(1), _np.float32(0))), float(_np.nextafter(1.0, 0.0)), 1.5, 2.0}      # disjoint genomes; catch-all thresholds
     return sorted(vals)
 
 
@@ -241,7 +243,7 @@ class AwkwardValues(Fam):
             how = ['f8', 'list', 'f4'][i % 3]
             pool = f32ok if how == 'f4' else list(range(len(vals)))
             anchor = rng.choice(pool)
-            near = [x for x in pool if abs(x - anchor) <= 3]
+            near = [x for x in pool if abs(x - anchor) <= 3 and vals[x] <= 1.0] or [x for x in pool if vals[x] <= 1.0][-3:]        # distances lie in [0, 1]
             thr = [rng.choice([-1] + [x for x in range(len(vals)) if abs(x - anchor) <= 3]) for _ in range(n)]
             ng = rng.randint(1, 3)
             gt = [rng.randint(1, n) for _ in range(ng)]
